@@ -6,3 +6,8 @@ import TinsModel.Props.C12
 #print axioms Tins.Props.C12.exactly_one_owner_reachable
 #print axioms Tins.Props.C12.destroy_all_frees_each_once
 #print axioms Tins.Props.C12.clone_deep_equal
+#print axioms Tins.Props.C12.copy_assign_equal
+#print axioms Tins.Props.C12.copy_independent
+#print axioms Tins.Props.C12.handles_disjoint
+#print axioms Tins.Props.C12.pinned_copy_assign_keeps_old_inner
+#print axioms Tins.Props.C12.fixed_copy_assign_drops_old_inner
